@@ -11,8 +11,8 @@ HARNESS = {
 }
 # model-checking runs: (cfg, kind).  kind "mc" = exhaustive; "sim" = -simulate
 MC = {
-    "quick": [("MCWait_q3live", "mc"), ("MCWait_safe4", "mc"), ("MCWait_hist2", "mc"), ("MCWait_lts", "lts")],
-    "thorough": [("MCWait_split", "mc"), ("MCWait_hist", "mc"), ("MCWait_ord8", "mc"), ("MCWait_sim8", "sim"), ("MCWait_lts", "lts")],
+    "quick": [("MCWait_q3live", "mc"), ("MCWait_safe4", "mc"), ("MCWait_hist2", "mc"), ("MCWait_genbug", "refute"), ("MCWait_lts", "lts")],
+    "thorough": [("MCWait_split", "mc"), ("MCWait_hist", "mc"), ("MCWait_ord8", "mc"), ("MCWait_sim8", "sim"), ("MCWait_genbug", "refute"), ("MCWait_lts", "lts")],
 }
 TABLE, WAITCODE = 40, 35
 
@@ -55,6 +55,14 @@ def model_check(prop, cfg, kind, tier):
                      simulate="num=%d" % 1500, extra=["-depth", "60", "-seed", str(vlib.seed())])
     else:
         r = vlib.tlc(wd, "MCWait.tla", cfg + ".cfg", workers=4, timeout=2400, coverage=(tier == "thorough" and kind == "mc"))
+    if kind == "refute":
+        # a deliberately WRONG variant of the design (the release rule reads the history counter modulo GenMod): TLC must refute
+        # P_C20 on it, otherwise the formula would not see a wake-up lost after a long history
+        if r.violated != "P_C20":
+            raise NoVerdict("TLC did not refute P_C20 on the wrong design %s (violated=%s): %s" % (cfg, r.violated, r.error or r.stdout[-1500:]))
+        log("[tlc] %s: P_C20 refuted on the design that reads the history counter, as it must be (%d states, %.1fs)" % (cfg, r.distinct, r.wall))
+        r.refuted = True
+        return r
     if r.violated:
         raise NoVerdict("the MODEL violates %s under %s (model counterexample, not a verdict on the code):\n%s"
                         % (r.violated, cfg, "\n".join(x for x in r.stdout.splitlines() if not x.startswith('<<"TR"'))[-3000:]))
@@ -86,7 +94,7 @@ class LTS:
             if e["op"] == "return":
                 continue
             a, b = self.S(t["f"]), self.S(t["t"])
-            lab = {"op": e["op"], "ws": sorted(e["ws"]), "wc": [t["t"]["reg"][w] for w in sorted(e["ws"])], "cs": sorted(e["cs"]), "dl": e["dl"]}
+            lab = {"op": e["op"], "ws": sorted(e["ws"]), "wc": [t["t"]["reg"][w] for w in sorted(e["ws"])], "cs": sorted(e["cs"]), "dl": e["dl"], "rep": e["rep"]}
             k = json.dumps(lab, sort_keys=True)
             if e["op"] == "race":
                 self.race[a].setdefault(k, (lab, set()))[1].add(b)
@@ -166,7 +174,7 @@ def orderings(lts, init, max_req, max_reg):
         for k in sorted(lts.det[a]):
             lab, b = lts.det[a][k]
             if lab["op"] == "request":
-                if len(lab["cs"]) != 1 or lab["dl"] != "single" or nreq >= max_req:
+                if len(lab["cs"]) != 1 or lab["dl"] != "single" or lab["rep"] > 1 or nreq >= max_req:
                     continue
                 ext = True
                 rec(b, steps + [(a, "det", k)], nreq + 1, nreg)
@@ -210,7 +218,7 @@ def concretise(lts, wid, steps, rnd, abstract_codes, expect=True):
         lab, succ = (lts.det[a][k] if kind == "det" else lts.race[a][k])
         cs = [m[c] for c in lab["cs"]]
         rnd.shuffle(cs)      # sending order of a stream: the model's cs is a set
-        out.append({"op": lab["op"], "ws": lab["ws"], "wc": [m[c] for c in lab["wc"]], "cs": cs, "dl": lab["dl"]})
+        out.append({"op": lab["op"], "ws": lab["ws"], "wc": [m[c] for c in lab["wc"]], "cs": cs, "dl": lab["dl"], "rep": lab["rep"]})
         if kind == "det":
             st = lts.states[succ]
             exp.append([{"park": sorted([w, m[c]] for (w, c) in st[1]), "regd": sorted(st[2])}])
@@ -258,6 +266,37 @@ def code_walks(via):
     return ws
 
 
+HISTORIES = [0, 1, 2, 127, 128, 254, 255, 256, 257, 511, 512]
+LONG_HISTORIES = [65535, 65536]
+
+
+def history_walks(via, tier):
+    """Long histories of a code on one long-lived agent: h earlier requests with the code, then waiters park on it, then the
+    matching request must release all of them - and again after the next registrations (history h+1, h+2, ...)."""
+    ws = []
+    codes = [11, 35, 36, 31] if via else [0, 11, 35, 39]
+    for c in codes:
+        hs = list(HISTORIES)
+        if not via or (tier == "thorough" and c in (35, 36)):
+            hs += LONG_HISTORIES
+        for h in hs:
+            d = 12
+            st = []
+            if h:
+                st.append({"op": "request", "ws": [], "wc": [], "cs": [c], "dl": "pipelined" if h > 1 else "single", "rep": h})
+            st += [{"op": "reg", "ws": ["w1", "w2"], "wc": [c, c], "cs": []},
+                   {"op": "reg", "ws": ["w3"], "wc": [d], "cs": []},
+                   {"op": "request", "ws": [], "wc": [], "cs": [c]},
+                   {"op": "reg", "ws": ["w4"], "wc": [c], "cs": []},
+                   {"op": "request", "ws": [], "wc": [], "cs": [c]},
+                   {"op": "reg", "ws": ["w5", "w6"], "wc": [c, c], "cs": []},
+                   {"op": "request", "ws": [], "wc": [], "cs": [d, c], "dl": "pipelined"},
+                   {"op": "reg", "ws": ["w7"], "wc": [c], "cs": []},
+                   {"op": "request", "ws": [], "wc": [], "cs": [c], "dl": "fragmented"}]
+            ws.append({"id": "h%d_%d" % (c, h), "steps": st})
+    return ws
+
+
 def random_walks(via, n, rnd, maxlen):
     """Direction B: random schedules, up to 8 concurrently parked waiters on the same and on different codes, batches of
     registrations, batches of requests on several connections, registrations racing with requests."""
@@ -282,7 +321,10 @@ def random_walks(via, n, rnd, maxlen):
             elif r < 0.85 or nw >= 16:
                 cs = sorted({pick() for _ in range(rnd.choice([1, 1, 2, 3, 4]))})
                 rnd.shuffle(cs)
-                steps.append({"op": "request", "ws": [], "wc": [], "cs": cs, "dl": rnd.choice(["single", "single", "pipelined", "fragmented"])})
+                if rnd.random() < 0.12:
+                    steps.append({"op": "request", "ws": [], "wc": [], "cs": cs[:1], "dl": "pipelined", "rep": rnd.choice([2, 3, 200, 254, 255, 256, 257, 300])})
+                else:
+                    steps.append({"op": "request", "ws": [], "wc": [], "cs": cs, "dl": rnd.choice(["single", "single", "pipelined", "fragmented"])})
             else:
                 b = min(rnd.choice([1, 1, 2]), 16 - nw)
                 ids = ["w%d" % (nw + j + 1) for j in range(b)]
@@ -515,6 +557,7 @@ def run(prop, tier):
     nrand = 120 if tier == "quick" else 1500
     for via in (False, True):
         plans[via] += code_walks(via)
+        plans[via] += history_walks(via, tier)
         plans[via] += random_walks(via, nrand, rnd, 12 if tier == "quick" else 24)
         rnd.shuffle(plans[via])
     log("[plan] %d tours (%d LTS edges not planned), %d orderings, 2x256 code walks, 2x%d random schedules" % (len(tw), left, nord, nrand))
@@ -537,6 +580,7 @@ def run(prop, tier):
            "model_runs": {n: ({"generated": r.generated, "distinct": r.distinct, "depth": r.depth, "wall_s": round(r.wall, 1)} if r.distinct
                               else {"simulated_states": getattr(r, "sim_states", 0), "behaviours": getattr(r, "sim_traces", 0), "wall_s": round(r.wall, 1)})
                           for n, r in res.items() if n.startswith("MCWait")},
+           "wrong_design_refuted_by_tlc": bool(getattr(res.get("MCWait_genbug"), "refuted", False)),
            "apalache": res.get("apalache"),
            "lts_states": len(lts.states), "lts_edges": ndet, "lts_race_inputs": nrace, "lts_edges_not_planned": left,
            "tours": len(tw), "orderings_replayed": nord, "code_walks": 512, "random_schedules": 2 * nrand,
